@@ -813,14 +813,19 @@ func runC05Proxy(out *vlib.Out, p *c05Proxy) (string, string) {
 		client.Close()
 	}
 	// Proxy has returned: every Close it makes on the covert connection has been called (the deferred one
-	// synchronously), so the covert must see EOF or a reset; 5 s is three orders of magnitude more than the
-	// loopback needs. A covert still reading after that was not closed.
-	srv.mu.Lock()
-	if srv.conn != nil {
-		_ = srv.conn.SetReadDeadline(time.Now().Add(5 * time.Second))
+	// synchronously), so the covert sees EOF or a reset as soon as its goroutine runs; 10 s is four orders
+	// of magnitude more than the loopback needs. A covert still reading after that was not closed: its
+	// read is then ended from here (and reports a timeout, which is what `sawClose` tells apart).
+	select {
+	case <-srvDone:
+	case <-time.After(10 * time.Second):
+		srv.mu.Lock()
+		if srv.conn != nil {
+			_ = srv.conn.SetReadDeadline(time.Now())
+		}
+		srv.mu.Unlock()
+		<-srvDone
 	}
-	srv.mu.Unlock()
-	<-srvDone
 	settled := c05WaitGoroutines(base)
 	out.Checked()
 	gauge1 := atomic.LoadInt64(&getProxyStats().sessionsProxying)
@@ -858,7 +863,7 @@ func runC05Proxy(out *vlib.Out, p *c05Proxy) (string, string) {
 			fail("gauge-unbalanced", fmt.Sprintf("sessionsProxying %d -> %d", gauge0, gauge1))
 		}
 		if srv.accepted && p.reset == 0 && !srv.sawClose {
-			fail("covert-not-closed", fmt.Sprintf("5 s after Proxy returned the covert's connection was still open (its read ended with %q)", srv.endErr))
+			fail("covert-not-closed", fmt.Sprintf("10 s after Proxy returned the covert's connection was still open (its read was ended with %q)", srv.endErr))
 		}
 		if bufChanged {
 			fail("buffer-changed-during-write", "the bytes handed to the client's Write changed while the call was in progress: the relay buffer is shared between the two directions")
